@@ -920,6 +920,24 @@ def family_cases():
     cases.append(("insert_as_block[column absent]", "error", ins([dict(tmpl[0], message_text="T {{wrod}} {{extra}}")]), None))
     cases.append(("insert_as_block[argument misspelt]", "error", ins([dict(tmpl[0], message_text="T {{word}} {{exrta}}")]), None))
     cases.append(("insert_as_block[outer flow's names not visible]", "error", ins([dict(tmpl[0], message_text="T {{word}} {{outer}}")]), None))
+    # two templates in one run: what one template's arguments (a `sheet` argument: the rows of a data sheet; an ordinary
+    # argument) define is defined for THAT template only, whatever was instantiated before
+    words = [{"ID": "w1", "word": "apple", "amount": "1"}, {"ID": "w2", "word": "pear", "amount": "2"}]
+    ta = [{"row_id": "a1", "type": "send_message", "from": "start", "message_text": "A {{ wordlist|length }} {{ tone }}"}]
+    cf_a = {"type": "create_flow", "sheet_name": "ta", "template_arguments": "data;loud"}
+    td_a = {"type": "template_definition", "sheet_name": "ta", "template_arguments": "wordlist;sheet;|tone;;soft"}
+    for label, cell in (("text", "B {{ wordlist|length }}"), ("statement", "B {% for w in wordlist %}x{% endfor %}"), ("native", "{@ wordlist @}"),
+                        ("ordinary argument", "B {{ tone }}")):
+        tb = [{"row_id": "b1", "type": "send_message", "from": "start", "message_text": "B start"},
+              {"row_id": "b2", "type": "send_message", "from": "b1", "message_text": cell if label != "native" else "B", "choices": cell if label == "native" else ""}]
+        cf_b = {"type": "create_flow", "sheet_name": "tb"}
+        extra = {"ta": rows_to_csv(G.HEADERS, ta), "tb": rows_to_csv(G.HEADERS, tb)}
+        for order, idx in (("after", [idx_data, td_a, cf_a, cf_b]), ("before", [idx_data, td_a, cf_b, cf_a]), ("alone", [idx_data, cf_b])):
+            sheets = {"content_index": rows_to_csv(IH, idx), "data": rows_to_csv(["ID", "word", "amount"], words)}
+            sheets.update(extra)
+            cases.append((f"two_templates[{label}: the other template's argument, {order} it]", "error", sheets, None))
+    sheets = {"content_index": rows_to_csv(IH, [idx_data, td_a, cf_a]), "data": rows_to_csv(["ID", "word", "amount"], words), "ta": rows_to_csv(G.HEADERS, ta)}
+    cases.append(("two_templates[control: the declaring template alone]", "ok", sheets, ["A 2 loud"]))
     return cases
 
 
